@@ -544,7 +544,7 @@ def announce_cover(check: Check, repo: Repo) -> None:
             ok, why = False, "no _to_pending_results call in this branch"
             if calls:
                 txt = unparse(calls[0])
-                both = all(f"event.{f}" in txt or _alias_of(arm, f) in txt for f in carriers[cls])
+                both = all(f"event.{f}" in txt or _alias_of(arm, f) in txt or _alias_in(scope, f) in txt for f in carriers[cls])
                 guards = [a for a in ancestors(calls[0]) if isinstance(a, ast.If) and a is not arm and any(x is a for s in scope for x in ast.walk(s))]
                 g_ok = all(all(f in unparse(g.test) for f in carriers[cls]) for g in guards)
                 ok = both and g_ok
@@ -552,6 +552,20 @@ def announce_cover(check: Check, repo: Repo) -> None:
                        f"passed: {txt[:80]}; guard(s): {[unparse(g.test) for g in guards]} - does not cover {sorted(carriers[cls])}")
             check.ob(rule, arm, f"branch {cls}: new work announced", ok, why)
     check.floor(rule, 2, "event classes carrying new work")
+
+
+def _alias_in(scope: list[ast.stmt], field: str) -> str:
+    """A local bound to `<event>.<field>` anywhere in the scope (single or tuple assignment)."""
+    for s in scope:
+        for a in ast.walk(s):
+            if not (isinstance(a, ast.Assign) and len(a.targets) == 1):
+                continue
+            t, v = a.targets[0], a.value
+            pairs = list(zip(t.elts, v.elts)) if isinstance(t, ast.Tuple) and isinstance(v, ast.Tuple) and len(t.elts) == len(v.elts) else [(t, v)]
+            for tt, vv in pairs:
+                if isinstance(tt, ast.Name) and isinstance(vv, ast.Attribute) and vv.attr == field and isinstance(vv.value, ast.Name):
+                    return tt.id
+    return "\0"
 
 
 def _alias_of(arm: ast.If, field: str) -> str:
@@ -641,12 +655,16 @@ def ancestor_walk(check: Check, repo: Repo, rule: str = "ANCESTOR-WALK") -> None
     )
     for mn, q, link, root in ANCESTOR_WALKS:
         fn = repo.func(mn, q)
+        # the walk may live in a module-level helper the function calls (`if has_ancestor_in(x, s): s.discard(x)`)
+        mod_ = repo.mod(mn)
+        scopes = [fn] + [h for h in (mod_.defs.get(c.func.id) for c in ast.walk(fn) if isinstance(c, ast.Call) and isinstance(c.func, ast.Name))
+                         if isinstance(h, (ast.FunctionDef, ast.AsyncFunctionDef)) and h is not fn]
         tests = []
-        for c in ast.walk(fn):
+        for c in [x for sc in scopes for x in ast.walk(sc)]:
             if isinstance(c, ast.Compare) and len(c.ops) == 1 and isinstance(c.ops[0], (ast.In, ast.NotIn)):
                 tests.append(c)
         walked = []
-        for w in ast.walk(fn):
+        for w in [x for sc in scopes for x in ast.walk(sc)]:
             if not isinstance(w, ast.While):
                 continue
             adv = [s for s in ast.walk(w) if isinstance(s, ast.Assign) and len(s.targets) == 1 and isinstance(s.targets[0], ast.Name)
